@@ -20,15 +20,25 @@ KNOWN_NDARRAY = "left-operand-is-numpy-array"
 # --------------------------------------------------------------------------------------
 _ENVS = {}
 NENV = 3
-DOMSIZE = {"sd0": 4, "sd1": 2, "intf": 4}
-#: positions of the time-dependent array "src" (stored per subdomain, md-grid order)
-SRCPOS = {"sd0": [0, 1, 2, 3], "sd1": [4, 5]}
+DOMSIZE = {"sd0": 4, "sd1": 2, "intf": 4, "bg0": 8, "bg1": 2}
+#: positions of the values of the time-dependent array "src" in the case's src vectors: the SAME
+#: name is stored on subdomains, the interface and the boundary grids
+SRCPOS = {"sd0": list(range(0, 4)), "sd1": list(range(4, 6)), "intf": list(range(6, 10)),
+          "bg0": list(range(10, 18)), "bg1": list(range(18, 20))}
+NSRC = 20
 NTS = 4          # stored time-step indices 0..3 and iterate indices 0..3
 
 
 def env(v=0):
     """Equation systems on a fractured 2-d md-grid (matrix sd0: 4 cells, fracture sd1: 2 cells,
     interface: 4 cells), differing in the ORDER in which the variables are created."""
+    if not _ENVS:
+        for w in range(NENV):       # fixed creation order: grid ids are process-wide counters
+            _make_env(w)
+    return _ENVS[v]
+
+
+def _make_env(v):
     if v not in _ENVS:
         mdg, _ = pp.mdg_library.square_with_orthogonal_fractures(
             "cartesian", {"cell_size": 0.5}, [1])
@@ -49,13 +59,16 @@ def env(v=0):
             es.create_variables("y", subdomains=[sds[0]])
             es.create_variables("x", subdomains=[sds[1], sds[0]])
             es.create_variables("y", subdomains=[sds[1]])
-        grids = {"sd0": sds[0], "sd1": sds[1], "intf": intfs[0]}
+        bgs = {bg.parent.id: bg for bg in mdg.boundaries()}
+        grids = {"sd0": sds[0], "sd1": sds[1], "intf": intfs[0],
+                 "bg0": bgs[sds[0].id], "bg1": bgs[sds[1].id]}
+        assert all(grids[k].num_cells == n for k, n in DOMSIZE.items())
         key_of = {id(g): k for k, g in grids.items()}
         atoms = {(var.name, key_of[id(var.domain)]): var for var in es.variables}
+        assert len(atoms) == 5
         blocks = {k: [int(i) for i in es.dofs_of([var])] for k, var in atoms.items()}
         _ENVS[v] = dict(mdg=mdg, es=es, sds=sds, intfs=intfs, N=es.num_dofs(), grids=grids,
                         key_of=key_of, atoms=atoms, blocks=blocks)
-    return _ENVS[v]
 
 
 #: vector-valued variable leaves by size: (name, list of domains); the list order is free
@@ -95,26 +108,35 @@ class Builder:
     def __init__(self, case):
         E = env(case.get("env", 0))
         self.E = E
-        es, mdg = E["es"], E["mdg"]
-        st = case["state"]
         #: arrays handed to porepy; they are overwritten before the evaluation (aliasing probe)
         self.handed = []
+        #: Scalar objects shared between several places of the expression (by "sid")
+        self.scalars = {}
+        self.set_state(case["state"])
+        #: log of previous_timestep / previous_iteration calls on composite operators
+        self.shifts = []
+
+    def data_of(self, key):
+        E = self.E
+        g = E["grids"][key]
+        return (E["mdg"].subdomain_data(g) if key.startswith("sd") else
+                E["mdg"].interface_data(g) if key == "intf" else E["mdg"].boundary_grid_data(g))
+
+    def set_state(self, st):
+        E = self.E
+        es, mdg = E["es"], E["mdg"]
         for k in range(NTS):
             for key, kw in (("it%d" % k, {"iterate_index": k}), ("ts%d" % k, {"time_step_index": k})):
                 arr = np.array(st[key], dtype=float)
                 es.set_variable_values(arr, **kw)
                 self.handed.append(arr)
-        off = 0
-        for sd, d in mdg.subdomains(return_data=True):
-            n = sd.num_cells
-            pp.set_solution_values("src", np.array(st["src_it0"][off:off + n], dtype=float), d,
+        for key, pos in SRCPOS.items():
+            d = self.data_of(key)
+            pp.set_solution_values("src", np.array([st["src_it0"][p_] for p_ in pos], dtype=float), d,
                                    iterate_index=0)
             for k in range(NTS):
-                pp.set_solution_values("src", np.array(st["src_ts%d" % k][off:off + n], dtype=float),
-                                       d, time_step_index=k)
-            off += n
-        #: log of previous_timestep / previous_iteration calls on composite operators
-        self.shifts = []
+                pp.set_solution_values("src", np.array([st["src_ts%d" % k][p_] for p_ in pos],
+                                                       dtype=float), d, time_step_index=k)
 
     def shifted(self, s, op, log):
         for key, ptime in (("t", True), ("i", False)):
@@ -151,6 +173,10 @@ class Builder:
             a = pp.ad.TimeDependentDenseArray("src", [E["grids"][d] for d in s["doms"]])
             return self.shifted(s, a, False)
         if k == "scalar":
+            if "sid" in s:      # one Scalar object per id (e.g. the time-step size), for set_value
+                if s["sid"] not in self.scalars:
+                    self.scalars[s["sid"]] = pp.ad.Scalar(self.number(s))
+                return self.scalars[s["sid"]]
             return pp.ad.Scalar(self.number(s))
         if k == "dense":
             return pp.ad.DenseArray(self.array(s))
@@ -337,6 +363,8 @@ def s_eval(s, ctx, dt=0, di=0):
     k = s["k"]
     zero = lambda n: [[q(0)] * N for _ in range(n)]
     if k in ("scalar", "num"):
+        if "sid" in s and s["sid"] in ctx.get("scal", {}):
+            return ("num", q(ctx["scal"][s["sid"]]))     # the value given by Scalar.set_value
         return ("num", q(s["v"]))
     if k in ("dense", "arr"):
         return ("vec", [q(x) for x in s["v"]], zero(len(s["v"])))
@@ -582,7 +610,8 @@ def gen_var(rng, n, mode="any", budget=4):
 
 
 def gen_tdda(rng, n, mode="any", budget=4):
-    doms = {6: rng.choice([["sd0", "sd1"], ["sd1", "sd0"]]), 4: ["sd0"], 2: ["sd1"]}[n]
+    doms = {6: rng.choice([["sd0", "sd1"], ["sd1", "sd0"]]), 4: rng.choice([["sd0"], ["intf"]]),
+            2: rng.choice([["sd1"], ["bg1"]]), 8: ["bg0"], 10: rng.choice([["bg0", "bg1"], ["bg1", "bg0"]])}[n]
     return gen_shift(rng, {"k": "tdda", "doms": doms}, mode, budget, False)
 
 
@@ -595,6 +624,24 @@ def gen_leaf_vec(rng, n, allow_raw, mode="any", budget=4):
     if r < 0.9 or not allow_raw:
         return {"k": "dense", "v": rvals(rng, n)}
     return {"k": "arr", "v": rvals(rng, n)}
+
+
+def gen_scal(rng, depth, safe=True):
+    """scalar-valued expression over shared Scalar objects (sid 0: 'dt', sid 1: 'theta') and
+    plain numbers, e.g. theta / dt, 1 / dt, 2.0 * dt; [safe]: usable as a denominator"""
+    if depth == 0 or rng.random() < 0.3:
+        sid = rng.randrange(2)
+        return {"k": "scalar", "v": [0.5, 0.75][sid], "sid": sid}
+    op = rng.choice(["mul", "div"] if safe else ["mul", "div", "add", "sub"])
+    a = gen_scal(rng, depth - 1, safe)
+    r = rng.random()
+    if r < 0.35:
+        b = {"k": "num", "v": gen_num(rng)}
+    else:
+        b = gen_scal(rng, depth - 1, True if op == "div" else safe)
+    if r >= 0.35 and rng.random() < 0.35:
+        a = {"k": "num", "v": gen_num(rng)}      # number on the left: 1 / dt, 2.0 * dt
+    return {"k": "bin", "op": op, "a": a, "b": b}
 
 
 def gen_mat(rng, rows, cols, raw_ok):
@@ -725,14 +772,14 @@ def has_raw_left(s):
     return False
 
 
-POOL = [sg * Fraction(16 + k, 32) for k in range(80) for sg in (1, -1)]
+POOL = [sg * Fraction(16 + k, 32) for k in range(125) for sg in (1, -1)]
 
 
 def gen_state(rng, N):
     """DISTINCT non-zero values for every dof and every stored index, so that a value read
     from the wrong dof or the wrong time step / iterate is visible"""
     keys = ([("it%d" % k, N) for k in range(NTS)] + [("ts%d" % k, N) for k in range(NTS)]
-            + [("src_it0", 6)] + [("src_ts%d" % k, 6) for k in range(NTS)])
+            + [("src_it0", NSRC)] + [("src_ts%d" % k, NSRC) for k in range(NTS)])
     vals = rng.sample(POOL, sum(n for _, n in keys))
     st, off = {}, 0
     for key, n in keys:
@@ -744,6 +791,27 @@ def gen_state(rng, N):
 def has_prev(s):
     return s["k"] == "prev" or any(has_prev(c) for c in (s.get("a"), s.get("b"))
                                    if isinstance(c, dict))
+
+
+def coinciding(op):
+    """number of pairs of same-named time-dependent arrays on different kinds of domain with a
+    common grid id, in one operator tree"""
+    arrs = []
+
+    def walk(o):
+        if isinstance(o, pp.ad.TimeDependentDenseArray):
+            arrs.append(o)
+        for c in o.children:
+            walk(c)
+
+    walk(op)
+    n = 0
+    for i, a in enumerate(arrs):
+        for b in arrs[i + 1:]:
+            if a.name == b.name and a.domain_type != b.domain_type and \
+                    {d.id for d in a.domains} & {d.id for d in b.domains}:
+                n += 1
+    return n
 
 
 def tnodes(t):
@@ -826,6 +894,12 @@ class C02(Prop):
             "that already contain shifted leaves (nested twice, mixed with time-dependent arrays), "
             "each such call checked against the model's shift_tree on the serialised operators; "
             "KeyError beyond the stored indices and refused time/iterate mixes; bare shifted leaves; "
+            "several time-dependent arrays with the SAME name on subdomains, the interface and boundary "
+            "grids whose grid ids coincide, in one tree (also shifted / under previous_timestep); "
+            "HISTORIES: build - evaluate - change shared Scalar objects with set_value (theta/dt, "
+            "1/dt, 2.0*dt patterns) and store new values for all variables and arrays - evaluate the "
+            "already built operator again (tree re-serialised, oracle on the spec with the current "
+            "scalar values); "
             "sparse operands in csr/csc/coo/dia/bsr storage, matrix and array flavours, csr/csc also "
             "with unsorted indices and explicitly stored zeros; dense operands as float64/float32/"
             "int64/int32, numbers as python float/int and numpy float64; exact power-of-two scalings "
@@ -850,7 +924,8 @@ class C02(Prop):
                    "generated"]
 
     _stats = {"kinds": {}, "census": {}, "direct_adarray_checked": 0, "results": {}, "envs": {},
-              "shift_calls_on_composites": 0, "permuted_md_leaves": 0}
+              "shift_calls_on_composites": 0, "permuted_md_leaves": 0,
+              "coinciding_id_array_pairs": 0}
 
     # ---------------------------------------------------------------------------------
     def generate(self, rng, n, tier):
@@ -871,7 +946,7 @@ class C02(Prop):
             ev = rng.randrange(NENV)
             base = {"state": st, "env": ev}
             r = rng.random()
-            if r < 0.03:
+            if r < 0.02:
                 # a reverse-operation node, as the overloads built them before the repair
                 op = rng.choice(["rmul", "rdiv", "rpow", "rmatmul"])
                 size = rng.choice([2, 4, 6])
@@ -950,7 +1025,57 @@ class C02(Prop):
                                                    "b": dict(X, **{k2: 1})}}
                 yield dict(base, kind="shift-conflict", expr=expr)
                 continue
-            if r < 0.42:
+            if r < 0.50:
+                # several time-dependent arrays with the SAME name on different kinds of domain
+                # whose grid ids coincide (subdomain k / boundary grid k / interface k)
+                if rng.random() < 0.6:
+                    size, doms = 2, [["sd1"], ["bg1"]]
+                else:
+                    size, doms, ev = 4, [["sd0"], ["intf"]], 0
+                rng.shuffle(doms)
+                A = {"k": "tdda", "doms": doms[0]}
+                B = {"k": "tdda", "doms": doms[1]}
+                for X in (A, B):
+                    if rng.random() < 0.4:
+                        X["t"] = rng.randint(1, 2)
+                expr = {"k": "bin", "op": rng.choice(["sub", "add", "mul", "div"]), "a": A, "b": B}
+                rr = rng.random()
+                if rr < 0.3:
+                    expr = {"k": "bin", "op": "mul", "a": gen_var(rng, size), "b": expr}
+                elif rr < 0.5:      # the boundary array of the matrix grid, through a projection
+                    expr = {"k": "bin", "op": "add", "a": expr,
+                            "b": {"k": "bin", "op": "matmul", "a": gen_proj(rng, 8, size),
+                                  "b": {"k": "tdda", "doms": ["bg0"]}}}
+                elif rr < 0.65:
+                    expr = {"k": "prev", "t": 1, "a": expr}
+                yield dict(base, kind="same-name-arrays", expr=expr, env=ev)
+                continue
+            if r < 0.62:
+                # HISTORY: build the expression, evaluate, change Scalar values in place
+                # (set_value) and store new values for variables / arrays, evaluate again
+                size = rng.choice([2, 4, 6])
+                V = gen_vec(rng, size, rng.randint(0, 2))
+                S = gen_scal(rng, rng.randint(1, 2), True)
+                pat = rng.random()
+                if pat < 0.35:      # (theta / dt) * (x - x_prev)
+                    X = gen_var(rng, size, "none", 0)
+                    expr = {"k": "bin", "op": "mul", "a": S,
+                            "b": {"k": "bin", "op": "sub", "a": dict(X), "b": dict(X, t=1)}}
+                elif pat < 0.55:    # x * x / (2.0 * dt)
+                    X = gen_var(rng, size, "none", 0)
+                    expr = {"k": "bin", "op": "div",
+                            "a": {"k": "bin", "op": "mul", "a": dict(X), "b": dict(X)}, "b": S}
+                elif pat < 0.8:
+                    expr = {"k": "bin", "op": rng.choice(["mul", "add", "sub"]), "a": S, "b": V}
+                else:
+                    expr = {"k": "bin", "op": rng.choice(["mul", "div", "add", "sub"]), "a": V,
+                            "b": gen_scal(rng, rng.randint(1, 2), True)}
+                hist = {"scalars": {"0": rng.choice([0.25, 1.5, 2.0, 0.125]),
+                                    "1": rng.choice([1.0, 0.25, -0.5])},
+                        "state": gen_state(rng, N)}
+                yield dict(base, kind="history", expr=fix_raw(expr), history=hist)
+                continue
+            if r < 0.66:
                 # a bare (shifted) leaf: the result is what the leaf's parse returns
                 size = rng.choice([2, 4, 6])
                 leaf = gen_var(rng, size) if rng.random() < 0.7 else gen_tdda(rng, size)
@@ -1041,8 +1166,22 @@ class C02(Prop):
         st["results"][with_d[0]] = st["results"].get(with_d[0], 0) + 1
         st["envs"][case.get("env", 0)] = st["envs"].get(case.get("env", 0), 0) + 1
         st["shift_calls_on_composites"] += len(b.shifts)
-        return {"built": True, "tree": jsonable(tree), "with_d": with_d, "without_d": without_d,
-                "direct": direct, "shifts": jsonable(b.shifts), "aliasing": aliasing}
+        res = {"built": True, "tree": jsonable(tree), "with_d": with_d, "without_d": without_d,
+               "direct": direct, "shifts": jsonable(b.shifts), "aliasing": aliasing}
+        st["coinciding_id_array_pairs"] += coinciding(op)
+        hist = case.get("history")
+        if hist:
+            # leaf data are changed IN PLACE; the already built operator is evaluated again and
+            # its tree is re-read, so that the model sees what the implementation holds now
+            for sid, v in hist["scalars"].items():
+                if int(sid) in b.scalars:
+                    b.scalars[int(sid)].set_value(v)
+            b.set_state(hist["state"])
+            b.clobber()
+            res["tree2"] = jsonable(ser(op, E))
+            res["with_d2"] = self.observe(E["es"], op, True)
+            res["without_d2"] = self.observe(E["es"], op, False)
+        return res
 
     @staticmethod
     def _tree_of(case, res):
@@ -1061,11 +1200,24 @@ class C02(Prop):
         if res.get("aliasing"):
             return ("a later evaluation of the same operator differs after the arrays returned by "
                     "an earlier evaluation were overwritten (aliasing)")
+        why = self.oracle_phase(case, res, case["state"], {}, res["with_d"], res["without_d"],
+                                res["direct"])
+        if why:
+            return why
+        hist = case.get("history")
+        if hist:
+            why = self.oracle_phase(case, res, hist["state"],
+                                    {int(k): v for k, v in hist["scalars"].items()},
+                                    res["with_d2"], res["without_d2"], None)
+            if why:
+                return "after Scalar.set_value / new stored values: " + why
+        return None
+
+    def oracle_phase(self, case, res, state, scal, wd, wo, direct):
         E = env(case.get("env", 0))
         N = E["N"]
-        b = Builder(case)
-        ctx = {"N": N, "state": case["state"], "blocks": E["blocks"], "sub_order": b.sub_order}
-        wd, wo = res["with_d"], res["without_d"]
+        b = Builder(dict(case, state=state))
+        ctx = {"N": N, "state": state, "blocks": E["blocks"], "sub_order": b.sub_order, "scal": scal}
         try:
             exp = s_eval(case["expr"], ctx)
         except ExpectKeyError:
@@ -1105,7 +1257,7 @@ class C02(Prop):
             return "Jacobian differs from the direct forward-mode evaluation"
         if wov is None or len(wov) != len(vals) or not all(tol(a, b) for a, b in zip(wov, vals)):
             return "value without derivative differs from the value with derivative / direct value"
-        d = res["direct"]
+        d = direct
         if d is not None:
             self._stats["direct_adarray_checked"] += 1
             if d[0] == "err":
@@ -1165,6 +1317,11 @@ class C02(Prop):
             st = cvec(case["state"]["it0"])
             terms.append(f"agree {ctree(tree)} {st} {self.cstores(case['state'])} "
                          f"{self.cobs(res['with_d'])} {self.cobs(res['without_d'])}")
+            if "tree2" in res:      # after the in-place changes of the history
+                st2 = case["history"]["state"]
+                terms.append(f"agree {ctree(unjson(res['tree2']))} {cvec(st2['it0'])} "
+                             f"{self.cstores(st2)} {self.cobs(res['with_d2'])} "
+                             f"{self.cobs(res['without_d2'])}")
         if not terms:
             return None
         return "(" + " && ".join(terms) + ")%bool"
